@@ -1,5 +1,6 @@
 import ServlinVerif.Driver.C14
 import ServlinVerif.Driver.C20
+import ServlinVerif.Driver.C18
 import ServlinVerif.Driver.C11
 import ServlinVerif.Driver.C04
 import ServlinVerif.Driver.C05
@@ -53,6 +54,7 @@ def handleLine (line : String) : String :=
     | "c16n" => C16.handleNew args obs
     | "c16a" => C16.handleAdd args obs
     | "c17" => C17.handle args obs
+    | "c18" => C18.handle args obs
     | "c20e" => C20.handleError args obs
     | "c20s" => C20.handleStatus args obs
     | _ => "bad-suite\tFAIL:bad-suite"
